@@ -94,9 +94,9 @@ def install_recorder(pipe, reserve0=False):
             self._used_physical_qubit_addresses.add(p)
             return p
 
-        def _allocate_physical_qubit(self, subroutine_id, virtual_address, physical_address=None):
+        def _allocate_physical_qubit(self, subroutine_id, virtual_address, physical_address=None, *a, **k):
             try:
-                r = super()._allocate_physical_qubit(subroutine_id, virtual_address, physical_address)
+                r = super()._allocate_physical_qubit(subroutine_id, virtual_address, physical_address, *a, **k)
             except ValueError:
                 rec["fault"] = rec["fault"] or ("OutOfRange", virtual_address)
                 raise
